@@ -579,6 +579,25 @@ pub fn candidates_doc() -> El {
         ],
     );
     ps2.attrs = vec![];
+    // a deactivated annotated statement and an explicitly active one: three attributes each, so that
+    // attribute order (comment before / after the flag) is a rewrite with something to get wrong
+    let mk3 = |name: &str, flag: &str| {
+        let mut p = el(
+            X,
+            "policy-statement",
+            vec![
+                leaf(X, "name", name, false),
+                Node::El(el(X, "then", vec![empty(X, "reject")])),
+            ],
+        );
+        p.attrs = vec![
+            ("xmlns:jcmd".into(), "http://yang.juniper.net/junos/jcmd".into()),
+            ("jcmd:comment".into(), "/* bgpfu-fltr: AS-BAR */".into()),
+            ("jcmd:active".into(), flag.into()),
+        ];
+        p
+    };
+    let (ps3, ps4) = (mk3("fltr-off", "false"), mk3("fltr-on", "true"));
     let data = el(
         B,
         "data",
@@ -588,7 +607,7 @@ pub fn candidates_doc() -> El {
             vec![Node::El(el(
                 X,
                 "policy-options",
-                vec![Node::El(ps), Node::El(ps2)],
+                vec![Node::El(ps), Node::El(ps2), Node::El(ps3), Node::El(ps4)],
             ))],
         ))],
     );
